@@ -947,6 +947,11 @@ def property_check(p, t, scope, ops=True, accelerated=False, p_ref=None):
     if got_sets != want_sets or any(m not in ref for m in gotf):
         return True, 'C07/filter/not-one-per-image-set', (f'filtered: {len(got_sets)} mappings over {len(set(got_sets))} image sets, '
                                                           f'reference has {len(want_sets)} image sets')
+    # the operators of a QUERY go through the accelerated matcher whenever it is importable (`_cython=True` is the default): outside
+    # the documented domain of its bit layout (e.g. `h0` against an atom whose hydrogen count is unknown — C09's recorded gap) its
+    # answer is not this property's subject
+    if ops and scope is None and is_query(p) and not accel_domain(p, t):
+        ops = False
     if ops and scope is None:
         exp_sub = bool(ref)
         obs = outcome(lambda: (p <= t, p < t, p.is_equal(t), p.is_substructure(t)))
